@@ -35,7 +35,7 @@ SHARD_TIMEOUT = {"quick": 900, "thorough": 3000}
 
 
 def plan(tier, seed):
-    return [{"kind": "pairs", "n": 14 if tier == "quick" else 400} for _ in range(10 if tier == "quick" else 16)]
+    return [{"kind": "pairs", "n": 22 if tier == "quick" else 400} for _ in range(10 if tier == "quick" else 16)]
 
 
 def run_shard(spec, acc):
